@@ -36,7 +36,13 @@ FenEvent ==
         /\ ntr' = IF cls # "dontcare" THEN ntr \cup {l} ELSE ntr
         /\ ncls' = [ncls EXCEPT ![cls] = @ + 1]
 
-Next == l <= Len(Rec) /\ l' = l + 1 /\ FenEvent
+\* the harness process died while handling this case
+Panic ==
+  /\ Ev.ev = "panic"
+  /\ Record(<< <<FALSE, "process aborted during " \o Ev.during \o ": " \o Ev.msg, "no abort">> >>)
+  /\ UNCHANGED <<ntr, ncls>>
+
+Next == l <= Len(Rec) /\ l' = l + 1 /\ (FenEvent \/ Panic)
 Init == l = 1 /\ bad = <<>> /\ nbad = 0 /\ ntr = {} /\ ncls = [c \in {"accept", "reject", "dontcare"} |-> 0]
 Spec == Init /\ [][Next]_vars
 Report == (l = Len(Rec) + 1) => JsonSerialize(IOEnv.OUT, [lines |-> Len(Rec), nbad |-> nbad, bad |-> bad, ntr |-> ntr, ncls |-> ncls])
